@@ -48,6 +48,14 @@ def fill (s : GoSlice α) (v : α) : GoSlice α := { s with arr := Array.replica
 /-- `s[:hi]` for `hi ≤ len(s)` (re-slicing into the hidden capacity is refused) -/
 def «prefix» (s : GoSlice α) (hi : Int) : Option (GoSlice α) :=
   if 0 ≤ hi ∧ hi.toNat ≤ s.arr.size then some ⟨s.arr.extract 0 hi.toNat, s.cap⟩ else none
+/-- `s[:hi]` in general: up to `len(s)` a prefix; beyond it (up to the capacity) the slice is extended
+    into its backing array, whose content there is unknown — `stale i` stands for whatever element `i`
+    of the backing array holds (zero after `make`, older entries after a re-slice to a shorter length) -/
+def reslice (s : GoSlice α) (hi : Int) (stale : Nat → α) : Option (GoSlice α) :=
+  if 0 ≤ hi ∧ hi.toNat ≤ s.arr.size then some ⟨s.arr.extract 0 hi.toNat, s.cap⟩
+  else if 0 ≤ hi ∧ hi.toNat ≤ s.cap then
+    some ⟨s.arr ++ Array.ofFn (n := hi.toNat - s.arr.size) (fun k => stale (s.arr.size + k.val)), s.cap⟩
+  else none
 end GoSlice
 
 namespace GoArr
